@@ -225,7 +225,7 @@ pub fn run(ctx: &mut Ctx) {
     ctx.floor("ch.versions", 65536);
 
     // ------------------------------------------------ round trips
-    let n = ctx.tier.pick(60_000, 600_000);
+    let n = ctx.tier.pick(240000, 2400000);
     ctx.family("roundtrip", n, |ctx, case: &mut Case| {
         let r = &mut case.rng;
         let variant = (case.idx % 17) as usize;
@@ -339,7 +339,7 @@ pub fn run(ctx: &mut Ctx) {
         let b = hello_with_sidlen(&mut r, true, n);
         must_reject(ctx, "R1", &wrap(2, &b), json!({"sid_len": n, "hello": "server"}));
     });
-    let n = ctx.tier.pick(4_000, 40_000);
+    let n = ctx.tier.pick(16000, 160000);
     ctx.family("R2-R7", n, |ctx, case: &mut Case| {
         let r = &mut case.rng;
         match case.idx % 5 {
@@ -441,7 +441,7 @@ pub fn run(ctx: &mut Ctx) {
     });
     ctx.mark_exhaustive("all 240 handshake type codes without a parser rejected");
     // R10: truncation (hl rewritten) before the end of the last mandatory field
-    let n = ctx.tier.pick(3_000, 30_000);
+    let n = ctx.tier.pick(12000, 120000);
     ctx.family("R10", n, |ctx, case: &mut Case| {
         let r = &mut case.rng;
         let variant = *r.pick(&[1usize, 2, 3, 6, 7, 9, 14, 15, 16]);
@@ -465,7 +465,7 @@ pub fn run(ctx: &mut Ctx) {
         }
     });
     // R11: header cut, or hl > available
-    let n = ctx.tier.pick(1_000, 10_000);
+    let n = ctx.tier.pick(4000, 40000);
     ctx.family("R11", n, |ctx, case: &mut Case| {
         let r = &mut case.rng;
         let v = gen::hs(r, gen::TINY);
@@ -489,7 +489,7 @@ pub fn run(ctx: &mut Ctx) {
 
     // ------------------------------------------------ body parsers taking the declared length as a parameter:
     // they must consume exactly `len` bytes of a longer buffer and refuse a shorter one
-    let n = ctx.tier.pick(6_000, 60_000);
+    let n = ctx.tier.pick(24000, 240000);
     ctx.family("len-param-body-parsers", n, |ctx, case: &mut Case| {
         let r = &mut case.rng;
         let variant = [4usize, 8, 10, 11, 12, 13][(case.idx % 6) as usize];
@@ -542,7 +542,7 @@ pub fn run(ctx: &mut Ctx) {
     });
 
     // ------------------------------------------------ single length-field corruptions, structural oracle
-    let n = ctx.tier.pick(8_000, 80_000);
+    let n = ctx.tier.pick(32000, 320000);
     ctx.family("len-corruptions", n, |ctx, case: &mut Case| {
         let r = &mut case.rng;
         let v = gen::hs(r, gen::TINY);
